@@ -24,6 +24,9 @@ structure HMv (h h' : HalfLock.Sys) (t : Nat) (p p' : Phase) (o : Obs) : Prop wh
   /-- every step of `read()` brings the pin one step closer -/
   pre : (p = .idle ∨ ∃ u, p = .rPre u) → ((∃ u, p' = .rPre u) ∨ ∃ q u, p' = .rHold q u) →
     HalfLock.preA (pcAt h' t) + 1 = HalfLock.preA (pcAt h t)
+  /-- with both reader slots idle, a writer's step keeps them idle and uses up one unit of `rem` -/
+  quiet : h.lock0 = 0 → h.lock1 = 0 → (Phase.crit p = true ∨ ∃ b, o = .mutexLock b) →
+    h'.lock0 = 0 ∧ h'.lock1 = 0 ∧ (Phase.crit p = true → HalfLock.rem (pcAt h' t) + 1 = HalfLock.rem (pcAt h t))
 
 /-- the dispatcher's plan from the contents of the two pinned snapshots -/
 def planOf (dp : SigData) (fp : Option (Int × Disp)) (sig : Int) : Option Disp × List Nat :=
@@ -200,13 +203,20 @@ inductive Step6 (env : Env) (s : Sys) (t : Nat) (th : Thread) : Sys → StepOut 
 /-- an `Mv` as an `HMv` -/
 theorem hmv_of {h0 h h' : HalfLock.Sys} {t : Nat} {cmd : Option HalfLock.Cmd} {o : Obs} {p p' : Phase}
     (mv : Mv h0 h' t cmd o) (e0 : h0.data = h.data) (e1 : h0.live = h.live) (e2 : h0.mutexOwner = h.mutexOwner)
-    (e3 : h0.threads = h.threads) (hp : phaseAt h t = p) (hp' : phaseAt h' t = p') : HMv h h' t p p' o :=
+    (e3 : h0.threads = h.threads) (hp : phaseAt h t = p) (hp' : phaseAt h' t = p')
+    (e4 : h0.lock0 = h.lock0 := by rfl) (e5 : h0.lock1 = h.lock1 := by rfl) : HMv h h' t p p' o :=
   ⟨hp, hp', fun j hj => by rw [mv.others j hj]; simp [phaseAt, pcAt, e3],
    by rw [mv.eff.data, e0], by rw [mv.eff.live, e1], by rw [mv.eff.mutex, e2],
    fun h1 h2 => by
      have hph : phaseAt h0 t = phaseAt h t := by simp [phaseAt, pcAt, e3]
      have := mv.pre (by rw [hph, hp]; exact h1) (by rw [hp']; exact h2)
-     rw [this]; simp [pcAt, e3]⟩
+     rw [this]; simp [pcAt, e3],
+   fun q0 q1 hc => by
+     have hph : phaseAt h0 t = phaseAt h t := by simp [phaseAt, pcAt, e3]
+     have hpa : pcAt h0 t = pcAt h t := by simp [pcAt, e3]
+     have := mv.quiet (by rw [e4]; exact q0) (by rw [e5]; exact q1) (by rw [hph, hp]; exact hc)
+     rw [hph, hp, hpa] at this
+     exact this⟩
 
 theorem dispatchPlan_eq (s : Sys) (t : Nat) (sig : Int) (p pf u u' : Nat)
     (hd : phaseAt s.hd t = .rHold p u) (hf : phaseAt s.hf t = .rHold pf u') :
